@@ -3,6 +3,8 @@ package sim
 // C11 — fault enumeration: every API-call index of a scripted scenario × every fault kind.
 
 import (
+	"crypto/sha256"
+	"encoding/hex"
 	"os"
 	"encoding/json"
 	"fmt"
@@ -261,6 +263,8 @@ func multiC11(t *testing.T, p *Profile, seed uint64, tier string, idx int, repla
 		baseViol[v.Prop+"/"+v.Monitor+"/"+v.Sig] = true
 	}
 	agg.NonVac = map[string]int{"C11.baseline": 1}
+	digest := sha256.New()
+	fmt.Fprintf(digest, "base:%s|%d\n", want, K)
 	agg.Probes = map[string]int{"c11.calls:" + scen: K}
 	var out []Violation
 	seen := map[string]bool{}
@@ -277,6 +281,7 @@ func multiC11(t *testing.T, p *Profile, seed uint64, tier string, idx int, repla
 		agg.Calls += res.Calls
 		agg.SimSec += res.SimSec
 		agg.Steps += res.Steps
+		fmt.Fprintf(digest, "%d/%s/%d/%d:%s|%d|%.0f|%d\n", k, kind, k2, res.sim.faultsFired, res.sim.finalState, res.Calls, res.SimSec, len(res.Violations))
 		if res.EngineErr != "" {
 			agg.EngineErr = res.EngineErr
 			return
@@ -340,6 +345,7 @@ func multiC11(t *testing.T, p *Profile, seed uint64, tier string, idx int, repla
 	}
 	agg.Violations = out
 	agg.Sig = fmt.Sprintf("%s-%d-%d", scen, variant, slice)
+	agg.LogHash = hex.EncodeToString(digest.Sum(nil))[:16]
 	return agg
 }
 
